@@ -53,7 +53,13 @@ def check_case(ctx, case):
         return check_catalog(ctx, case)
     S, fore, cat = build(case)
     n = case["n"]
-    mu = float(fore.event_count)
+    # expected mean from the case itself (rates scaled to case["mu"], last scale factor wins), never from the library
+    hist = case.get("scale_history", [])
+    mu = case["mu"] * (hist[-1] if hist else 1.0)
+    got_mu = float(fore.event_count)
+    if abs(got_mu - mu) > 1e-9 * mu:
+        ctx.violation("forecast_total_wrong_after_scaling", {"got": got_mu, "want": mu, "history": hist})
+        return
     if case["k"] == "poisson":
         o = call(P.number_test, fore, cat)
         if not o.ok:
@@ -107,7 +113,7 @@ def check_case(ctx, case):
             ctx.unexpected(o2, name + "_scaled")
             break
         e1, e2 = (float(x) for x in o2.value.quantile)
-        m2 = float(fore.event_count)
+        m2 = case["mu"] * f
         x1, x2 = pois_tails(n, m2)
         if not G.close(e1, x1, TOL(x1)) or not G.close(e2, x2, TOL(x2)):
             ctx.violation(name + ":wrong_after_scaling", {"factor": f, "mean": m2, "got": [e1, e2], "want": [x1, x2]})
